@@ -1,1 +1,217 @@
-(** Props/C15.v — placeholder, to be written. *)
+(** Props/C15.v — in-place file rewrites are all-or-nothing.
+
+    Statements over the operation model of Model/FsRewrite.v, for EVERY fault assignment
+    [F : nat -> fmode] (any set of primitives raising, a kill at any primitive, including
+    inside the clean-up paths), every data plan [pl] (any number of chunks, a formatting
+    failure at any item, a payload that does not parse), every directory and every fresh-name
+    supply.  [all_states r] lists the directory state before each primitive issued and the
+    final one: these are exactly the states a kill can leave behind.
+
+    Assumed, not modelled: atomicity of rename(2), durability (nothing is fsynced),
+    user-space buffering (the bytes of a file with an open write handle are unspecified). *)
+From PV Require Import FsRewrite FsRewriteProofs.
+Open Scope string_scope.
+
+(** the name supply hypothesis is satisfiable *)
+Theorem C15_fresh_names_exist : fresh_namer default_namer.
+Proof. exact default_namer_fresh. Qed.
+Print Assumptions C15_fresh_names_exist.
+
+(** At every instant of every faulted run the source holds its complete old bytes, or -
+    only once the rename has taken effect - its complete new bytes. *)
+Theorem C15_source_old_or_new : forall nm F k pl src old s0 n,
+  fresh_namer nm -> lookup src (sd s0) = Some old ->
+  Forall (fun s => (nrep s = nrep s0 /\ lookup src (sd s) = Some old) \/
+                   (nrep s = S (nrep s0) /\
+                    exists nw, new_of k pl = Some nw /\ lookup src (sd s) = Some nw))
+         (all_states (run_ops nm F (inplace_ops k pl src) n s0)).
+Proof. exact source_old_or_new. Qed.
+Print Assumptions C15_source_old_or_new.
+
+(** If the rewrite does not complete (it raises - formatting, serialisation, any write, the
+    temp file, the rename - or the process dies anywhere) the source is byte-for-byte intact. *)
+Theorem C15_failure_or_kill_leaves_source_intact : forall nm F k pl src old s0 n,
+  fresh_namer nm -> lookup src (sd s0) = Some old ->
+  outc (run_ops nm F (inplace_ops k pl src) n s0) <> Done ->
+  lookup src (sd (final (run_ops nm F (inplace_ops k pl src) n s0))) = Some old /\
+  nrep (final (run_ops nm F (inplace_ops k pl src) n s0)) = nrep s0.
+Proof. exact failure_leaves_old. Qed.
+Print Assumptions C15_failure_or_kill_leaves_source_intact.
+
+(** Files other than the source and the temp file are never touched, at any instant. *)
+Theorem C15_others_untouched : forall nm F k pl src s0 n,
+  fresh_namer nm -> lookup src (sd s0) <> None ->
+  Forall (fun s => forall q, q <> src -> q <> tmp_of nm s0 src ->
+                             lookup q (sd s) = lookup q (sd s0))
+         (all_states (run_ops nm F (inplace_ops k pl src) n s0)).
+Proof. exact others_untouched. Qed.
+Print Assumptions C15_others_untouched.
+
+(** A successful rewrite leaves exactly the original entries, the source holding the new bytes. *)
+Theorem C15_success_same_entries : forall nm F k pl src s0 n,
+  fresh_namer nm -> lookup src (sd s0) <> None ->
+  outc (run_ops nm F (inplace_ops k pl src) n s0) = Done ->
+  exists nw, new_of k pl = Some nw /\
+    forall q, lookup q (sd (final (run_ops nm F (inplace_ops k pl src) n s0)))
+              = if String.eqb q src then Some nw else lookup q (sd s0).
+Proof. exact success_same_entries. Qed.
+Print Assumptions C15_success_same_entries.
+
+(** "A rewrite that fails by raising leaves no temporary file behind."
+    FULL STATEMENT - false of the code as it is:
+      forall nm F k pl src s0 n e, fresh_namer nm -> lookup src (sd s0) <> None ->
+        outc (run_ops nm F (inplace_ops k pl src) n s0) = Raised e ->
+        deq (sd (final (run_ops nm F (inplace_ops k pl src) n s0))) (sd s0).
+    Witness: fileformat on a two-line file whose second line references a missing key, no
+    injected fault at all.  The with block closes the NamedTemporaryFile(delete=False), nothing
+    removes it: the temp file (holding the first formatted line) stays in the directory. *)
+Theorem C15_raise_leaves_no_temp_refuted :
+  exists nm F k pl src s0 n e,
+    fresh_namer nm /\ lookup src (sd s0) <> None /\
+    outc (run_ops nm F (inplace_ops k pl src) n s0) = Raised e /\
+    ~ deq (sd (final (run_ops nm F (inplace_ops k pl src) n s0))) (sd s0).
+Proof.
+  exists default_namer, (fun _ => NoFault), Stream,
+         (mkplan true [Some "hello V
+"; None]), "a.txt",
+         (init [("a.txt", "hello {k}
+line2 {missing}
+")]), 0, EFormat.
+  split; [exact default_namer_fresh|]. split; [discriminate|]. split; [reflexivity|].
+  intros H. specialize (H (default_namer [("a.txt", "")] "")). vm_compute in H. discriminate.
+Qed.
+Print Assumptions C15_raise_leaves_no_temp_refuted.
+
+(** The same, for every input: whenever formatting an item raises (text line or object
+    payload, any position, any number of chunks before it), with no other fault, the step
+    raises the formatting error, the source is intact, and the temp file - a name that was not
+    in the directory - is left behind. *)
+Theorem C15_format_error_leaves_temp : forall nm F k pl src old s0 n pre post,
+  fresh_namer nm -> lookup src (sd s0) = Some old ->
+  (forall i, F i = NoFault) ->
+  (k = Object -> load_ok pl = true) ->
+  items pl = (pre ++ None :: post)%list -> Forall (fun i => i <> None) pre ->
+  let r := run_ops nm F (inplace_ops k pl src) n s0 in
+  outc r = Raised EFormat /\
+  lookup src (sd (final r)) = Some old /\
+  lookup (tmp_of nm s0 src) (sd s0) = None /\
+  lookup (tmp_of nm s0 src) (sd (final r)) <> None.
+Proof. exact format_error_leaves_temp. Qed.
+Print Assumptions C15_format_error_leaves_temp.
+
+(** ... and under any faults: if the main-line step that raised was a write, a formatting
+    step or the close of the temp file, the temp file is still there at the end. *)
+Theorem C15_late_failure_leaves_temp : forall nm F k pl src s0 n kk o,
+  fresh_namer nm -> lookup src (sd s0) <> None ->
+  stop (run_ops nm F (inplace_ops k pl src) n s0) = Some (kk, o) -> late o = true ->
+  lookup (tmp_of nm s0 src) (sd s0) = None /\
+  lookup (tmp_of nm s0 src) (sd (final (run_ops nm F (inplace_ops k pl src) n s0))) <> None.
+Proof. exact late_failure_leaves_temp. Qed.
+Print Assumptions C15_late_failure_leaves_temp.
+
+(** The part of "no temporary file is left" that does hold: when the step that raised is
+    opening or loading the source or creating the temp file, or is the rename and the remove
+    in move_temp_file's handler works, the directory is exactly what it was. *)
+Theorem C15_raise_leaves_no_temp_partial : forall nm F k pl src s0 n kk o,
+  fresh_namer nm -> lookup src (sd s0) <> None ->
+  stop (run_ops nm F (inplace_ops k pl src) n s0) = Some (kk, o) ->
+  early o = true \/ ((exists d, o = Replace d) /\ F (S kk) = NoFault) ->
+  deq (sd (final (run_ops nm F (inplace_ops k pl src) n s0))) (sd s0).
+Proof. exact raise_no_temp_partial. Qed.
+Print Assumptions C15_raise_leaves_no_temp_partial.
+
+(** Same-file detection: no out, out == in, and out == the directory of in all take the
+    in-place path; any other out file is written directly. *)
+Theorem C15_same_file_routed_in_place : forall k pl p,
+  file_ops k pl p NoOut = inplace_ops k pl p /\
+  file_ops k pl p (OutFile p) = inplace_ops k pl p /\
+  file_ops k pl p (OutDir (dirpart p)) = inplace_ops k pl p /\
+  (forall o, o <> p -> file_ops k pl p (OutFile o) = direct_ops k pl p o).
+Proof.
+  intros k pl p. split; [apply route_no_out|]. split; [apply route_same_file|].
+  split; [apply route_same_dir | apply route_other_file].
+Qed.
+Print Assumptions C15_same_file_routed_in_place.
+
+(** When out is another file, nothing but that file ever changes (the source is only read). *)
+Theorem C15_other_out_only_out_changes : forall nm F k pl src out s0 n,
+  Forall (fun s => nrep s = nrep s0 /\ forall q, q <> out -> lookup q (sd s) = lookup q (sd s0))
+         (all_states (run_ops nm F (direct_ops k pl src out) n s0)).
+Proof. exact direct_spec. Qed.
+Print Assumptions C15_other_out_only_out_changes.
+
+(** The list / glob loop.  At every instant of every faulted run over [paths] (duplicates and
+    names that are not files allowed) there is a j such that the directory is the original one
+    with the first j files completely rewritten and all later ones untouched - give or take
+    one extra name t that is not an entry of that directory (the temp file of the rewrite in
+    progress, or the one a failure left).  A completed run leaves exactly [apply_new paths]. *)
+Theorem C15_list_files_all_or_nothing_in_order : forall nm F xf k m,
+  fresh_namer nm -> forall paths, inplace_mode m paths -> forall n s0,
+  Forall (snap_ok xf k paths (sd s0)) (all_states (run_files nm F xf k m paths n s0)) /\
+  (outc (run_files nm F xf k m paths n s0) = Done ->
+   deq (sd (final (run_files nm F xf k m paths n s0))) (apply_new xf k paths (sd s0))).
+Proof. exact loop_spec. Qed.
+Print Assumptions C15_list_files_all_or_nothing_in_order.
+
+(** Files not matched by in are never touched. *)
+Theorem C15_unmatched_untouched : forall nm F xf k m paths n s0,
+  fresh_namer nm -> inplace_mode m paths ->
+  Forall (fun s => exists t, forall q, ~ In q paths -> q <> t ->
+                                       lookup q (sd s) = lookup q (sd s0))
+         (all_states (run_files nm F xf k m paths n s0)).
+Proof. exact unmatched_untouched. Qed.
+Print Assumptions C15_unmatched_untouched.
+
+(** * Non-vacuity: the theorems apply to concrete, non-trivial runs *)
+Definition ex_dir : dir := [("a.txt", "old A"); ("b.txt", "old B"); ("other", "x")].
+Definition ex_plan := mkplan true [Some "new "; Some "A"].
+Definition ex_xf : xform := fun b =>
+  if String.eqb b "old A" then Some ex_plan
+  else if String.eqb b "old B" then Some (mkplan true [Some "new B"]) else None.
+
+(* success: exactly the original names, a.txt complete-new *)
+Example C15_success_nonvacuous :
+  let r := run_ops default_namer (fun _ => NoFault) (inplace_ops Stream ex_plan "a.txt") 0 (init ex_dir) in
+  outc r = Done /\ sd (final r) = [("a.txt", "new A"); ("b.txt", "old B"); ("other", "x")] /\
+  List.length (hist r) = 7.
+Proof. vm_compute. repeat split. Qed.
+
+(* the second write raises: the error propagates, source intact, temp (first chunk) left *)
+Example C15_write_fault_nonvacuous :
+  let r := run_ops default_namer (fault_fun [(3, Raise)]) (inplace_ops Stream ex_plan "a.txt") 0 (init ex_dir) in
+  outc r = Raised (EInj 3) /\ stop r = Some (3, Write "A") /\
+  lookup "a.txt" (sd (final r)) = Some "old A" /\
+  lookup (tmp_of default_namer (init ex_dir) "a.txt") (sd (final r)) = Some "new ".
+Proof. vm_compute. repeat split. Qed.
+
+(* the rename raises: the handler removes the temp, the directory is as it was;
+   if the remove fails too the FIRST error is the one that propagates and the temp stays *)
+Example C15_rename_fault_nonvacuous :
+  let r := run_ops default_namer (fault_fun [(6, Raise)]) (inplace_ops Stream ex_plan "a.txt") 0 (init ex_dir) in
+  let r2 := run_ops default_namer (fault_fun [(6, Raise); (7, Raise)]) (inplace_ops Stream ex_plan "a.txt") 0 (init ex_dir) in
+  outc r = Raised (EInj 6) /\ sd (final r) = ex_dir /\ List.length (hist r) = 8 /\
+  outc r2 = Raised (EInj 6) /\ List.length (sd (final r2)) = 4.
+Proof. vm_compute. repeat split. Qed.
+
+(* a kill between the close of the temp and the rename: source old, complete temp on disk *)
+Example C15_kill_nonvacuous :
+  let r := run_ops default_namer (fault_fun [(6, Crash)]) (inplace_ops Stream ex_plan "a.txt") 0 (init ex_dir) in
+  outc r = Crashed /\ lookup "a.txt" (sd (final r)) = Some "old A" /\ nrep (final r) = 0 /\
+  lookup (tmp_of default_namer (init ex_dir) "a.txt") (sd (final r)) = Some "new A".
+Proof. vm_compute. repeat split. Qed.
+
+(* the loop: the rename of the SECOND file fails: first file complete-new, second old, no temp *)
+Example C15_loop_nonvacuous :
+  let r := run_files default_namer (fault_fun [(12, Raise)]) ex_xf Stream NoOut ["a.txt"; "missing"; "b.txt"] 0 (init ex_dir) in
+  outc r = Raised (EInj 12) /\
+  sd (final r) = [("a.txt", "new A"); ("b.txt", "old B"); ("other", "x")] /\
+  inplace_mode NoOut ["a.txt"; "missing"; "b.txt"].
+Proof. vm_compute. repeat split. intros p _. now left. Qed.
+
+(* object rewriter: payload does not parse -> nothing created; formatting fails -> temp left *)
+Example C15_object_nonvacuous :
+  let r := run_ops default_namer (fun _ => NoFault) (inplace_ops Object (mkplan false []) "a.txt") 0 (init ex_dir) in
+  let r2 := run_ops default_namer (fun _ => NoFault) (inplace_ops Object (mkplan true [None]) "a.txt") 0 (init ex_dir) in
+  outc r = Raised ELoad /\ sd (final r) = ex_dir /\
+  outc r2 = Raised EFormat /\ List.length (sd (final r2)) = 4.
+Proof. vm_compute. repeat split. Qed.
